@@ -52,6 +52,9 @@ type Decision struct {
 	GateAfter <-chan struct{}
 	// GateBefore, if non-nil, is waited on before the operation is performed.
 	GateBefore <-chan struct{}
+	// DelayAfter is slept after the operation was performed (and logged) and
+	// before it returns to the engine: a slow store acknowledgement.
+	DelayAfter time.Duration
 }
 
 // Controller scripts faults and receives snapshots.
@@ -138,6 +141,11 @@ func (d *DB) pre(op Op) (Decision, error) {
 }
 
 func (d *DB) post(dec Decision) {
+	if dec.DelayAfter > 0 {
+		d.gated.Add(1)
+		time.Sleep(dec.DelayAfter)
+		d.gated.Add(-1)
+	}
 	if dec.GateAfter != nil {
 		d.gated.Add(1)
 		<-dec.GateAfter
